@@ -820,6 +820,10 @@ class ModelMixin3:
         if name in ('min', 'max', 'abs', 'round', 'hash', 'id', 'ord'):
             return [(NumV(), st)]
         if name == 'range':
+            for a in args:
+                if isinstance(a, Ref) and a.kind == 'idx' and a.sym in st.heap and st.get(a.sym).kind == 'foreign' and 'len(' in (st.get(a.sym).why or ''):
+                    # range(len(xs) - 1) ... xs[i]: the relation between the counter and the list is not tracked: no verdict
+                    raise AnalysisError('range() over arithmetic on len(): positions computed from a length are outside the abstraction')
             return [(Ref('list', st.new(ListE('accum', 0, None, items=(NumV(),), stages=('range',)))), st)]
         if name == 'dict':
             return [(Ref('dict', st.new(DictE((), not args and not kwargs))), st)]
